@@ -78,3 +78,37 @@ contract("xdoctest.checker:check_got_vs_want",
                                      "not S.V(want, got_stdout, got_eval, runstate)"},
          props=["C02", "C09"], gen="gvw_inputs",
          sentinel=("stdout-only", "S.match(got_stdout, want, runstate)"))
+
+
+# ------------------------------------------------------------------------ C05
+from pyvc.contracts import record
+import contracts.doctest_example  # noqa: RuntimeState as an abstract state value
+
+contract("xdoctest.utils.util_str:strip_ansi", params={"text": "str"}, returns="str", modifies=[],
+         ensures=[("ansi-removed", "result == S.strip_ansi_spec(text)")],
+         props=["C05"], opts={"native": False, "functional": "S.strip_ansi_spec(text)"})
+contract("xdoctest.checker:remove_blankline_marker", params={"text": "str"}, returns="str", modifies=[],
+         ensures=[("markers-become-newlines", "result == S.remove_blankline_spec(text)")],
+         props=["C05"], opts={"native": False})
+contract("xdoctest.checker:_check_match", params={"got": "str", "want": "str", "runstate": "RuntimeState"}, returns="bool",
+         modifies=[],
+         ensures=[("exact-or-ellipsis", "result == S.check_match(got, want, runstate)")],
+         props=["C05", "C06"], opts={"native": False},
+         sentinel=("ellipsis-always-on", "result == (got == want or S.ellipsis_match(got, want))"))
+contract("xdoctest.checker:normalize.norm_repr", params={"a": "str", "b": "str", "runstate": "RuntimeState"}, returns="str",
+         modifies=[],
+         ensures=[("quotes-dropped-only-if-that-creates-a-match", "result == S.unquote(a, b, runstate)")],
+         props=["C05"], opts={"native": False, "closure": {"runstate": "RuntimeState"}},
+         sentinel=("always-unquotes", "implies(a.startswith('\"') and a.endswith('\"'), result == S.substr(a, 1, len(a) - 2))"))
+contract("xdoctest.checker:normalize", params={"got": "str", "want": "str", "runstate": "RuntimeState"}, returns="tuple[str,str]",
+         modifies=[],
+         ensures=[("got-pipeline", "result[0] == S.norm_got(got, want, runstate)"),
+                  ("want-pipeline", "result[1] == S.norm_want(got, want, runstate)")],
+         props=["C05"], opts={"native": False},
+         sentinel=("blankline-in-got-too", "result[0] == S.norm_got(S.remove_blankline_spec(got), want, runstate)"))
+contract("xdoctest.checker:check_output#relation", params={"got": "str", "want": "str", "runstate": "RuntimeState"}, returns="bool",
+         modifies=[],
+         ensures=[("documented-relation", "result == S.match_def(got, want, runstate)"),
+                  ("identical-texts-match", "implies(got == want, result)")],
+         props=["C05"], opts={"native": False},
+         sentinel=("never-normalises", "result == (want == '' or got == want)"))
